@@ -196,8 +196,26 @@ func vScenarioC05(rc *runCtx) {
 		x.settle(6 * time.Second)
 	case 2:
 		endings = append(endings, "zmodem-error")
+		hdr2 := "rz waiting to receive.\r**\x18B0100000023be50\r\x8a\x11"
+		if tp.Bool("c05.zmhelperfails", 500) {
+			// a download whose local rz starts and exits with an error at once, the remote side silent
+			endings[len(endings)-1] = "zmodem-helper-exits-nonzero"
+			hdr2 = "**\x18B00000000000000\r\x8a\x11"
+			x.execs[x.client] = func(req *verifsim.ExecRequest) (verifsim.ExecChild, error) {
+				if req.Name != "rz" {
+					return nil, fmt.Errorf("exec: %q: executable file not found in $PATH", req.Name)
+				}
+				h := &vHelper{w: w, kind: "exit-nonzero", name: req.Name, done: make(chan int, 1), killed: make(chan struct{})}
+				w.Go("helper.rz.fails", nil, func() {
+					verifsim.Sleep(10 * time.Millisecond)
+					h.exit(3)
+				})
+				return h, nil
+			}
+			defer delete(x.execs, x.client)
+		}
 		w.Go("zm", nil, func() {
-			x.down[0].Write([]byte("rz waiting to receive.\r**\x18B0100000023be50\r\x8a\x11"))
+			x.down[0].Write([]byte(hdr2))
 		})
 		x.settle(4 * time.Second)
 	}
